@@ -3937,6 +3937,13 @@ namespace bloch::runtime {
                 if (names(f))
                     return true;
         }
+        // Objects whose destruction was put off (deep chains) are out of m_heap but their
+        // destructors have yet to run, with their fields intact.
+        for (const auto& parked : m_parkedDying)
+            if (parked && parked.get() != except)
+                for (const auto& f : parked->fields)
+                    if (names(f))
+                        return true;
         return false;
     }
 
